@@ -220,11 +220,14 @@ class Scheduler(callbacks.Plugin):
         Removes the event scheduled with id <id> from the schedule.
         """
         if id in self.events:
+            # Only one-shot events are scheduled under an integer.  A
+            # repeating event is scheduled under its name, also when int()
+            # can read that name ('08' is a valid name: "remove 08" took
+            # event #8 out of the schedule and left '08' running for ever).
+            single = self.events[id]['type'] == 'single'
             del self.events[id]
-            try:
+            if single:
                 id = int(id)
-            except ValueError:
-                pass
             try:
                 schedule.removeEvent(id)
                 irc.replySuccess()
